@@ -331,7 +331,7 @@ func runReplayFS(rf *ReplayFile) int {
 
 // modelJobs: behaviours generated by TLC from the bounded instances of the operational model.
 var modelFor = map[string][]string{
-	"C02": {"Stage", "Dir"}, "C04": {"Stage", "Dir"}, "C05": {"Stage"}, "C06": {"Dir", "Stage"}, "C07": {"Stage"}, "C09": {"Dir", "Stage"}, "C13": {"Dir", "Stage"}, "C17": {"Ignore", "Stage"}, "C20": {"Config"},
+	"C02": {"Stage", "Dir"}, "C04": {"Stage", "Dir"}, "C05": {"Stage"}, "C06": {"Dir", "Stage"}, "C07": {"Stage"}, "C09": {"Dir", "Stage"}, "C13": {"Dir", "Stage"}, "C17": {"Ignore", "Stage"}, "C20": {"Config"}, "C12": {"Sign"},
 	"C03": {"Refs", "Stage"}, "C08": {"Refs", "Stage"}, "C10": {"Refs"}, "C11": {"Refs"}, "C14": {"Refs"}, "C18": {"Refs", "Stage"}, "C01": {"Stage"},
 }
 
